@@ -29,7 +29,8 @@ void
 mpz_init2 (mpz_ptr x, mp_bitcnt_t bits)
 {
   mp_size_t  limbs;
-  limbs = (bits + GMP_NUMB_BITS-1) / GMP_NUMB_BITS;
+  /* bits + GMP_NUMB_BITS-1 would wrap for bit counts near the maximum */
+  limbs = bits / GMP_NUMB_BITS + (bits % GMP_NUMB_BITS != 0);
   /* _mp_alloc and _mp_size are ints: a larger count cannot be recorded, and
      storing it would leave a negative allocation and size behind */
   if (UNLIKELY (limbs > INT_MAX))
